@@ -136,7 +136,7 @@ pub open spec fn asm_inv(c: &Context, o: &Output) -> bool {
             && final(context).mapper.v_next() == old(context).mapper.v_next() + 1,
         final(out).data@ == old(out).data@, final(context).fn_map@ == old(context).fn_map@, final(context).label_map@ == old(context).label_map@,
         asm_inv(old(context), old(out)) ==> asm_inv(final(context), final(out)), //# C08,C16 asm.output_invariant_preserved
-        r.is_ok() ==> toks(final(out).code@.last()@) == @TOKS(L:call P:n), //# C08,C11 asm.emitted_line_is_the_source_instruction_in_the_interpreters_syntax
+        r.is_ok() ==> toks(final(out).code@.last()@) == @TOKS(L:call P:n), //# C08,C11,C10 asm.emitted_line_is_the_source_instruction_in_the_interpreters_syntax
 //@end
 
 //@action src/lib/preprocessor/preprocessor.rs int = quote_int, u_byte_num as as_int
@@ -149,7 +149,7 @@ pub open spec fn asm_inv(c: &Context, o: &Output) -> bool {
         !(n == 3 || n == 0x10 || n == 0x21) ==> r.is_err() && final(out).code@ == old(out).code@,
         final(out).data@ == old(out).data@,
         asm_inv(old(context), old(out)) ==> asm_inv(final(context), final(out)), //# C08,C16 asm.output_invariant_preserved
-        r.is_ok() ==> toks(final(out).code@.last()@) == @TOKS(L:int N:n), //# C18,C11 asm.emitted_line_is_the_source_instruction_in_the_interpreters_syntax
+        r.is_ok() ==> toks(final(out).code@.last()@) == @TOKS(L:int N:n), //# C18,C11,C10 asm.emitted_line_is_the_source_instruction_in_the_interpreters_syntax
 //@end
 
 //@action src/lib/preprocessor/preprocessor.rs offset = quote_offset, name_string as as_offset
@@ -212,7 +212,7 @@ pub open spec fn asm_inv(c: &Context, o: &Output) -> bool {
             && final(out).code@.subrange(0, old(out).code@.len() as int) == old(out).code@,
         final(out).data@ == old(out).data@, final(context).label_map@ == old(context).label_map@, final(context).fn_map@ == old(context).fn_map@,
         asm_inv(old(context), old(out)) ==> asm_inv(final(context), final(out)), //# C08,C16 asm.output_invariant_preserved
-        r.is_ok() ==> toks(final(out).code@.last()@) == @TOKS(P:q P:n), //# C06,C08,C11 asm.emitted_line_is_the_source_instruction_in_the_interpreters_syntax
+        r.is_ok() ==> toks(final(out).code@.last()@) == @TOKS(P:q P:n), //# C06,C08,C11,C10 asm.emitted_line_is_the_source_instruction_in_the_interpreters_syntax
 //@end
 
 
@@ -238,7 +238,7 @@ pub open spec fn asm_inv(c: &Context, o: &Output) -> bool {
             && final(out).data@ == old(out).data@ && final(context).label_map@ == old(context).label_map@,
         final(out).code@ == old(out).code@, final(context).fn_map@ == old(context).fn_map@,
         asm_inv(old(context), old(out)) ==> asm_inv(final(context), final(out)), //# C08,C16 asm.output_invariant_preserved
-        r.is_ok() ==> toks(final(out).data@.last()@) == @TOKS(L:db N:n), //# C12,C11 asm.emitted_line_is_the_directive_in_the_loaders_syntax
+        r.is_ok() ==> toks(final(out).data@.last()@) == @TOKS(L:db N:n), //# C12,C11,C10 asm.emitted_line_is_the_directive_in_the_loaders_syntax
 //@end
 
 //@action src/lib/preprocessor/preprocessor.rs db_directive = label, quote_db, "[", u_word_num, "]" as as_db_zeros
@@ -262,7 +262,7 @@ pub open spec fn asm_inv(c: &Context, o: &Output) -> bool {
             && final(out).data@ == old(out).data@ && final(context).label_map@ == old(context).label_map@,
         final(out).code@ == old(out).code@, final(context).fn_map@ == old(context).fn_map@,
         asm_inv(old(context), old(out)) ==> asm_inv(final(context), final(out)), //# C08,C16 asm.output_invariant_preserved
-        r.is_ok() ==> toks(final(out).data@.last()@) == @TOKS(L:db L:[ N:n L:]), //# C12,C11 asm.emitted_line_is_the_directive_in_the_loaders_syntax
+        r.is_ok() ==> toks(final(out).data@.last()@) == @TOKS(L:db L:[ N:n L:]), //# C12,C11,C10 asm.emitted_line_is_the_directive_in_the_loaders_syntax
 //@end
 
 //@action src/lib/preprocessor/preprocessor.rs db_directive = label, quote_db, "[", s_byte_num, ",", u_word_num, "]" as as_db_fill
@@ -286,7 +286,7 @@ pub open spec fn asm_inv(c: &Context, o: &Output) -> bool {
             && final(out).data@ == old(out).data@ && final(context).label_map@ == old(context).label_map@,
         final(out).code@ == old(out).code@, final(context).fn_map@ == old(context).fn_map@,
         asm_inv(old(context), old(out)) ==> asm_inv(final(context), final(out)), //# C08,C16 asm.output_invariant_preserved
-        r.is_ok() ==> toks(final(out).data@.last()@) == @TOKS(L:db L:[ N:v L:, N:n L:]), //# C12,C11 asm.emitted_line_is_the_directive_in_the_loaders_syntax
+        r.is_ok() ==> toks(final(out).data@.last()@) == @TOKS(L:db L:[ N:v L:, N:n L:]), //# C12,C11,C10 asm.emitted_line_is_the_directive_in_the_loaders_syntax
 //@end
 
 //@action src/lib/preprocessor/preprocessor.rs dw_directive = label, quote_dw, s_word_num as as_dw_value
@@ -310,7 +310,7 @@ pub open spec fn asm_inv(c: &Context, o: &Output) -> bool {
             && final(out).data@ == old(out).data@ && final(context).label_map@ == old(context).label_map@,
         final(out).code@ == old(out).code@, final(context).fn_map@ == old(context).fn_map@,
         asm_inv(old(context), old(out)) ==> asm_inv(final(context), final(out)), //# C08,C16 asm.output_invariant_preserved
-        r.is_ok() ==> toks(final(out).data@.last()@) == @TOKS(L:dw N:n), //# C12,C11 asm.emitted_line_is_the_directive_in_the_loaders_syntax
+        r.is_ok() ==> toks(final(out).data@.last()@) == @TOKS(L:dw N:n), //# C12,C11,C10 asm.emitted_line_is_the_directive_in_the_loaders_syntax
 //@end
 
 //@action src/lib/preprocessor/preprocessor.rs dw_directive = label, quote_dw, "[", u_word_num, "]" as as_dw_zeros
@@ -334,7 +334,7 @@ pub open spec fn asm_inv(c: &Context, o: &Output) -> bool {
             && final(out).data@ == old(out).data@ && final(context).label_map@ == old(context).label_map@,
         final(out).code@ == old(out).code@, final(context).fn_map@ == old(context).fn_map@,
         asm_inv(old(context), old(out)) ==> asm_inv(final(context), final(out)), //# C08,C16 asm.output_invariant_preserved
-        r.is_ok() ==> toks(final(out).data@.last()@) == @TOKS(L:dw L:[ N:n L:]), //# C12,C11 asm.emitted_line_is_the_directive_in_the_loaders_syntax
+        r.is_ok() ==> toks(final(out).data@.last()@) == @TOKS(L:dw L:[ N:n L:]), //# C12,C11,C10 asm.emitted_line_is_the_directive_in_the_loaders_syntax
 //@end
 
 //@action src/lib/preprocessor/preprocessor.rs dw_directive = label, quote_dw, "[", s_word_num, ",", u_word_num, "]" as as_dw_fill
@@ -358,7 +358,7 @@ pub open spec fn asm_inv(c: &Context, o: &Output) -> bool {
             && final(out).data@ == old(out).data@ && final(context).label_map@ == old(context).label_map@,
         final(out).code@ == old(out).code@, final(context).fn_map@ == old(context).fn_map@,
         asm_inv(old(context), old(out)) ==> asm_inv(final(context), final(out)), //# C08,C16 asm.output_invariant_preserved
-        r.is_ok() ==> toks(final(out).data@.last()@) == @TOKS(L:dw L:[ N:v L:, N:n L:]), //# C12,C11 asm.emitted_line_is_the_directive_in_the_loaders_syntax
+        r.is_ok() ==> toks(final(out).data@.last()@) == @TOKS(L:dw L:[ N:v L:, N:n L:]), //# C12,C11,C10 asm.emitted_line_is_the_directive_in_the_loaders_syntax
 //@end
 
 //@action src/lib/preprocessor/preprocessor.rs db_directive = label, quote_db, r#"\"[[:print:]]*\""# as as_db_string
@@ -384,7 +384,7 @@ pub open spec fn asm_inv(c: &Context, o: &Output) -> bool {
             && final(out).data@ == old(out).data@ && final(context).label_map@ == old(context).label_map@,
         final(out).code@ == old(out).code@, final(context).fn_map@ == old(context).fn_map@,
         asm_inv(old(context), old(out)) ==> asm_inv(final(context), final(out)), //# C08,C16 asm.output_invariant_preserved
-        r.is_ok() ==> toks(final(out).data@.last()@) == @TOKS(L:db P:q), //# C12,C11 asm.emitted_line_is_the_directive_in_the_loaders_syntax
+        r.is_ok() ==> toks(final(out).data@.last()@) == @TOKS(L:db P:q), //# C12,C11,C10 asm.emitted_line_is_the_directive_in_the_loaders_syntax
 //@end
 
 //@action src/lib/preprocessor/preprocessor.rs dw_directive = label, quote_dw, r#"\"[[:print:]]*\""# as as_dw_string
@@ -410,7 +410,7 @@ pub open spec fn asm_inv(c: &Context, o: &Output) -> bool {
             && final(out).data@ == old(out).data@ && final(context).label_map@ == old(context).label_map@,
         final(out).code@ == old(out).code@, final(context).fn_map@ == old(context).fn_map@,
         asm_inv(old(context), old(out)) ==> asm_inv(final(context), final(out)), //# C08,C16 asm.output_invariant_preserved
-        r.is_ok() ==> toks(final(out).data@.last()@) == @TOKS(L:dw P:q), //# C12,C11 asm.emitted_line_is_the_directive_in_the_loaders_syntax
+        r.is_ok() ==> toks(final(out).data@.last()@) == @TOKS(L:dw P:q), //# C12,C11,C10 asm.emitted_line_is_the_directive_in_the_loaders_syntax
 //@end
 
 //@action src/lib/preprocessor/preprocessor.rs set_directive = quote_set, u_word_num as as_set
@@ -419,7 +419,7 @@ pub open spec fn asm_inv(c: &Context, o: &Output) -> bool {
     ensures final(context).data_counter == 0, final(out).data@.len() == old(out).data@.len() + 1,
         final(out).code@ == old(out).code@, final(context).label_map@ == old(context).label_map@,
         asm_inv(old(context), old(out)) ==> asm_inv(final(context), final(out)), //# C08,C16 asm.output_invariant_preserved
-        toks(final(out).data@.last()@) == @TOKS(L:set N:n), //# C12,C11 asm.emitted_line_is_the_directive_in_the_loaders_syntax
+        toks(final(out).data@.last()@) == @TOKS(L:set N:n), //# C12,C11,C10 asm.emitted_line_is_the_directive_in_the_loaders_syntax
 //@end
 
 // ---- string instructions: `movs byte` / `cmps word` ...: the mnemonic (already lowered by its table) followed by the operand size
@@ -427,28 +427,28 @@ pub open spec fn asm_inv(c: &Context, o: &Output) -> bool {
 //@contract
 //@fmttoks
 //@dropunused
-    ensures toks(r@) == @TOKS(P:q L:byte), //# C07,C11 asm.string_instruction_text_carries_its_operand_size
+    ensures toks(r@) == @TOKS(P:q L:byte), //# C07,C11,C10 asm.string_instruction_text_carries_its_operand_size
 //@end
 
 //@action src/lib/preprocessor/preprocessor.rs string_condition_repeat_opcode = quote_condition_repeat_opcode, quote_word_length as as_string_condition_repeat_opcode_word
 //@contract
 //@fmttoks
 //@dropunused
-    ensures toks(r@) == @TOKS(P:q L:word), //# C07,C11 asm.string_instruction_text_carries_its_operand_size
+    ensures toks(r@) == @TOKS(P:q L:word), //# C07,C11,C10 asm.string_instruction_text_carries_its_operand_size
 //@end
 
 //@action src/lib/preprocessor/preprocessor.rs string_repeat_opcode = quote_repeat_opcode, quote_byte_length as as_string_repeat_opcode_byte
 //@contract
 //@fmttoks
 //@dropunused
-    ensures toks(r@) == @TOKS(P:q L:byte), //# C07,C11 asm.string_instruction_text_carries_its_operand_size
+    ensures toks(r@) == @TOKS(P:q L:byte), //# C07,C11,C10 asm.string_instruction_text_carries_its_operand_size
 //@end
 
 //@action src/lib/preprocessor/preprocessor.rs string_repeat_opcode = quote_repeat_opcode, quote_word_length as as_string_repeat_opcode_word
 //@contract
 //@fmttoks
 //@dropunused
-    ensures toks(r@) == @TOKS(P:q L:word), //# C07,C11 asm.string_instruction_text_carries_its_operand_size
+    ensures toks(r@) == @TOKS(P:q L:word), //# C07,C11,C10 asm.string_instruction_text_carries_its_operand_size
 //@end
 
 // ---- macro use (C16: the position of the OUTERMOST use is frozen around the expansion and released afterwards; C13/C19: a use of a
@@ -505,7 +505,7 @@ impl PreprocessorParser {
         s + e < 0x100000 ==> r.is_ok() && final(out).code@.len() == old(out).code@.len() + 1
             && final(out).code@.subrange(0, old(out).code@.len() as int) == old(out).code@
             && final(context).mapper.v_next() == old(context).mapper.v_next() + 1,
-        r.is_ok() ==> toks(final(out).code@.last()@) == @TOKS(L:print L:mem N:s L:: N:e), //# C17,C11 asm.emitted_line_is_the_source_instruction_in_the_interpreters_syntax
+        r.is_ok() ==> toks(final(out).code@.last()@) == @TOKS(L:print L:mem N:s L:: N:e), //# C17,C11,C10 asm.emitted_line_is_the_source_instruction_in_the_interpreters_syntax
         final(out).data@ == old(out).data@, final(context).label_map@ == old(context).label_map@, final(context).fn_map@ == old(context).fn_map@,
         asm_inv(old(context), old(out)) ==> asm_inv(final(context), final(out)), //# C08,C16 asm.output_invariant_preserved
 //@end
@@ -519,8 +519,8 @@ impl PreprocessorParser {
 //@dropunused
 //@fmtvar s:String
     ensures
-        sr is Some ==> toks(res@) == @TOKS(P:sr->0 L:: L:[ N:n L:]), //# C04,C11 asm.memory_operand_text_is_the_source_operand_in_the_interpreters_syntax
-        sr is None ==> toks(res@) == @TOKS(L:[ N:n L:]), //# C04,C11 asm.memory_operand_text_is_the_source_operand_in_the_interpreters_syntax
+        sr is Some ==> toks(res@) == @TOKS(P:sr->0 L:: L:[ N:n L:]), //# C04,C11,C10 asm.memory_operand_text_is_the_source_operand_in_the_interpreters_syntax
+        sr is None ==> toks(res@) == @TOKS(L:[ N:n L:]), //# C04,C11,C10 asm.memory_operand_text_is_the_source_operand_in_the_interpreters_syntax
 //@end
 
 //@action src/lib/preprocessor/preprocessor.rs memory_addr = "[", base_index_reg, "]" as as_mem_indirect
@@ -530,8 +530,8 @@ impl PreprocessorParser {
 //@dropunused
 //@fmtvar s:String
     ensures
-        sr is Some ==> toks(res@) == @TOKS(P:sr->0 L:: L:[ P:r L:]), //# C04,C11 asm.memory_operand_text_is_the_source_operand_in_the_interpreters_syntax
-        sr is None ==> toks(res@) == @TOKS(L:[ P:r L:]), //# C04,C11 asm.memory_operand_text_is_the_source_operand_in_the_interpreters_syntax
+        sr is Some ==> toks(res@) == @TOKS(P:sr->0 L:: L:[ P:r L:]), //# C04,C11,C10 asm.memory_operand_text_is_the_source_operand_in_the_interpreters_syntax
+        sr is None ==> toks(res@) == @TOKS(L:[ P:r L:]), //# C04,C11,C10 asm.memory_operand_text_is_the_source_operand_in_the_interpreters_syntax
 //@end
 
 //@action src/lib/preprocessor/preprocessor.rs memory_addr = "[", base_reg, ",", s_word_num, "]" as as_mem_based
@@ -541,8 +541,8 @@ impl PreprocessorParser {
 //@dropunused
 //@fmtvar s:String
     ensures
-        sr is Some ==> toks(res@) == @TOKS(P:sr->0 L:: L:[ P:r L:, N:n L:]), //# C04,C11 asm.memory_operand_text_is_the_source_operand_in_the_interpreters_syntax
-        sr is None ==> toks(res@) == @TOKS(L:[ P:r L:, N:n L:]), //# C04,C11 asm.memory_operand_text_is_the_source_operand_in_the_interpreters_syntax
+        sr is Some ==> toks(res@) == @TOKS(P:sr->0 L:: L:[ P:r L:, N:n L:]), //# C04,C11,C10 asm.memory_operand_text_is_the_source_operand_in_the_interpreters_syntax
+        sr is None ==> toks(res@) == @TOKS(L:[ P:r L:, N:n L:]), //# C04,C11,C10 asm.memory_operand_text_is_the_source_operand_in_the_interpreters_syntax
 //@end
 
 //@action src/lib/preprocessor/preprocessor.rs memory_addr = "[", index_reg, ",", s_word_num, "]" as as_mem_indexed
@@ -552,8 +552,8 @@ impl PreprocessorParser {
 //@dropunused
 //@fmtvar s:String
     ensures
-        sr is Some ==> toks(res@) == @TOKS(P:sr->0 L:: L:[ P:r L:, N:n L:]), //# C04,C11 asm.memory_operand_text_is_the_source_operand_in_the_interpreters_syntax
-        sr is None ==> toks(res@) == @TOKS(L:[ P:r L:, N:n L:]), //# C04,C11 asm.memory_operand_text_is_the_source_operand_in_the_interpreters_syntax
+        sr is Some ==> toks(res@) == @TOKS(P:sr->0 L:: L:[ P:r L:, N:n L:]), //# C04,C11,C10 asm.memory_operand_text_is_the_source_operand_in_the_interpreters_syntax
+        sr is None ==> toks(res@) == @TOKS(L:[ P:r L:, N:n L:]), //# C04,C11,C10 asm.memory_operand_text_is_the_source_operand_in_the_interpreters_syntax
 //@end
 
 //@action src/lib/preprocessor/preprocessor.rs memory_addr = "[", base_reg, ",", index_reg, "]" as as_mem_based_indexed
@@ -563,10 +563,10 @@ impl PreprocessorParser {
 //@dropunused
 //@fmtvar s:String n:i16
     ensures
-        sr is Some && k is Some ==> toks(res@) == @TOKS(P:sr->0 L:: L:[ P:b L:, P:i L:, N:k->0 L:]), //# C04,C11 asm.memory_operand_text_is_the_source_operand_in_the_interpreters_syntax
-        sr is Some && k is None ==> toks(res@) == @TOKS(P:sr->0 L:: L:[ P:b L:, P:i L:, N:0 L:]), //# C04,C11 asm.memory_operand_text_is_the_source_operand_in_the_interpreters_syntax
-        sr is None && k is Some ==> toks(res@) == @TOKS(L:[ P:b L:, P:i L:, N:k->0 L:]), //# C04,C11 asm.memory_operand_text_is_the_source_operand_in_the_interpreters_syntax
-        sr is None && k is None ==> toks(res@) == @TOKS(L:[ P:b L:, P:i L:, N:0 L:]), //# C04,C11 asm.memory_operand_text_is_the_source_operand_in_the_interpreters_syntax
+        sr is Some && k is Some ==> toks(res@) == @TOKS(P:sr->0 L:: L:[ P:b L:, P:i L:, N:k->0 L:]), //# C04,C11,C10 asm.memory_operand_text_is_the_source_operand_in_the_interpreters_syntax
+        sr is Some && k is None ==> toks(res@) == @TOKS(P:sr->0 L:: L:[ P:b L:, P:i L:, N:0 L:]), //# C04,C11,C10 asm.memory_operand_text_is_the_source_operand_in_the_interpreters_syntax
+        sr is None && k is Some ==> toks(res@) == @TOKS(L:[ P:b L:, P:i L:, N:k->0 L:]), //# C04,C11,C10 asm.memory_operand_text_is_the_source_operand_in_the_interpreters_syntax
+        sr is None && k is None ==> toks(res@) == @TOKS(L:[ P:b L:, P:i L:, N:0 L:]), //# C04,C11,C10 asm.memory_operand_text_is_the_source_operand_in_the_interpreters_syntax
 //@end
 
 // an OFFSET used as a byte constant must fit in a byte
